@@ -69,6 +69,42 @@ def program(rng, idx):
     g.edb_space(P)      # e: 2^9 x n: 2^3 = 4096 EDBs
     return P
 
+def deep_program(rng, idx, quick=True):
+    """rules with 3-4 recursive atoms over ONE or two relations on longer chains/cycles (8 nodes): iterations in which a
+    combination (new, old, new) exists - the case in which the negated-delta filters of the later atoms matter"""
+    rels = [rel("e", 2, True), rel("n", 1, True), rel("p", 2)]
+    cl = [{"head": {"rel": "p", "args": [V("x"), V("y")]}, "body": [atom("e", V("x"), V("y"))]}]
+    shape = "ppp" if quick else rng.choice(["ppp", "ppp", "pqp", "ppe p"])
+    strata = [["e"], ["n"], ["p"]]
+    if shape == "ppp":
+        cl.append({"head": {"rel": "p", "args": [V("a"), V("d")]},
+                   "body": [atom("p", V("a"), V("b")), atom("p", V("b"), V("c")), atom("p", V("c"), V("d"))]})
+    elif shape == "pppp":
+        cl.append({"head": {"rel": "p", "args": [V("a"), V("f")]},
+                   "body": [atom("p", V("a"), V("b")), atom("p", V("b"), V("c")), atom("p", V("c"), V("d")), atom("p", V("d"), V("f"))]})
+    elif shape == "ppe p":
+        cl.append({"head": {"rel": "p", "args": [V("a"), V("f")]},
+                   "body": [atom("p", V("a"), V("b")), atom("p", V("b"), V("c")), atom("e", V("c"), V("d")), atom("p", V("d"), V("f"))]})
+    else:
+        rels.append(rel("q", 2)); strata[-1] = ["p", "q"]
+        cl.append({"head": {"rel": "q", "args": [V("x"), V("y")]}, "body": [atom("p", V("x"), V("y")), atom("n", V("x"))]})
+        cl.append({"head": {"rel": "p", "args": [V("a"), V("d")]},
+                   "body": [atom("q", V("a"), V("b")), atom("p", V("b"), V("c")), atom("p", V("c"), V("d"))]})
+        cl.append({"head": {"rel": "q", "args": [V("a"), V("d")]},
+                   "body": [atom("p", V("a"), V("b")), atom("q", V("b"), V("c")), atom("q", V("c"), V("d"))]})
+    N = 8
+    def chain(k, off=0): return [[off + i, off + i + 1] for i in range(k)]
+    graphs = [chain(7), chain(5) + [[5, 0]], chain(4) + [[0, 2]], chain(3) + chain(3, 4), chain(7) + [[2, 5]],
+              [[i, (i + 1) % 6] for i in range(6)],
+              [[a, b] for a in range(N) for b in range(N) if a != b and rng.random() < 0.15]]
+    if quick:
+        graphs = [chain(7), chain(4) + [[0, 2]]]
+    edbs = [{"e": g, "n": [[v] for v in range(N) if rng.random() < 0.8]} for g in graphs]
+    edbs.append({"e": [], "n": []})
+    return {"id": "sn_deep_%d_%s" % (idx, shape.replace(" ", "")), "types": [], "rels": rels, "clauses": cl, "strata": strata,
+            "dom": {"i": list(range(N)), "s": ["a"]}, "features": ["recursion", "deep"], "edbs": {"mode": "list", "list": edbs},
+            "edb_space": len(edbs)}
+
 def clause_lines(P):
     """line number (1-based) of each clause in the rendered text - the same order render.program uses"""
     text = render.program(P)
@@ -117,7 +153,8 @@ def run(tier, replay=None):
     # ---- A ----
     rng = random.Random(seed() * 409 + 9)
     nprog = 8 if tier == "quick" else 80
-    Ps = [program(rng, i) for i in range(nprog)]
+    ndeep = 1 if tier == "quick" else 12
+    Ps = [program(rng, i) for i in range(nprog - ndeep)] + [deep_program(rng, i, tier == "quick") for i in range(ndeep)]
     cases = evalcore.tlc_models(Ps, wd, res)
     # oracle: expected iteration counts and INSERT executions
     d = os.path.join(wd, "oracle")
